@@ -2,6 +2,7 @@
 mod cmp;
 mod engine;
 mod us;
+mod ut;
 
 use engine::*;
 use std::collections::HashSet;
@@ -65,6 +66,7 @@ fn main() {
     let uni = arg(&args, "--universe").unwrap_or("S".into());
     let j = match uni.as_str() {
         "S" => run::<us::US>(&args),
+        "T" => run::<ut::UT>(&args),
         _ => panic!("unknown universe"),
     };
     let out = j.dump();
